@@ -479,7 +479,9 @@ public:
       for (unsigned i = 0, sz = m_disjuncts.size(); i < sz; ++i) {
         m_disjuncts[i] -= v;
         if (m_disjuncts[i].is_top()) {
+          // set_to_top replaces m_disjuncts: stop iterating.
           set_to_top();
+          return;
         }
       }
     }
@@ -980,7 +982,9 @@ public:
       for (unsigned i = 0, sz = m_disjuncts.size(); i < sz; ++i) {
         m_disjuncts[i].forget(variables);
         if (m_disjuncts[i].is_top()) {
+          // set_to_top replaces m_disjuncts: stop iterating.
           set_to_top();
+          return;
         }
       }
     }
